@@ -183,7 +183,7 @@ PROPS = {
     ),
     'C14': dict(
         level='exploration', bins=PAYLOAD_WALKERS,
-        quick=walk_jobs(PAYLOAD_WALKERS, 8000, 40), thorough=walk_jobs(PAYLOAD_WALKERS, 40000, 60),
+        quick=walk_jobs(PAYLOAD_WALKERS, 12000, 40), thorough=walk_jobs(PAYLOAD_WALKERS, 40000, 60),
         claim='Every request (external, from callbacks, with or without payload; int, 32-byte struct and alignas(16) struct payloads) carries a unique tag; guards must see exactly the issued tags on the pending transitions of their round, every lifecycle callback must see currentTransitions() equal to the approved transitions with their tags, previousTransitions() and lastTransitionTo() must return the same tags afterwards, payload-less requests must expose no payload, payload storage must be aligned. Plan tasks: an accepted append is read back at once (same origin, destination, kind and payload tag), and the tag of the task a region executes is expected on the pending transition of the next guard round. Requests issued by entry guards during an activation are judged like any other (currentTransitions() inside enter(), history afterwards).',
         note='The 32-byte and over-aligned payloads carry redundancy so that a partially copied payload is detected.',
         technique='property-based testing (rapidcheck): tagged payload tracking through guards, lifecycle callbacks and history',
@@ -251,7 +251,7 @@ PROPS = {
         note='Trusted: the reference implementations (self-tested against published vectors at start-up). Only the 64-bit pointer width of this sandbox is run; the 32-bit variants are instantiated explicitly.',
         technique='differential testing against reference PRNG implementations (rapidcheck), two compilers',
         bins=['units_rng', 'units_rng_gcc'],
-        quick=[dict(bin='units_rng', cases=40000, size=100), dict(bin='units_rng_gcc', cases=40000, size=100)],
+        quick=[dict(bin='units_rng', cases=60000, size=100), dict(bin='units_rng_gcc', cases=60000, size=100)],
         thorough=[dict(bin='units_rng', cases=150000, size=100)] * 6 + [dict(bin='units_rng_gcc', cases=150000, size=100)] * 2,
         assumptions=['reference generators are written from the published algorithms and anchored by published vectors (checked at start-up)',
                      'an explicit all-zero 4-word state is the caller\'s error and is not generated',
